@@ -23,13 +23,14 @@ pub struct ColSpec {
 pub enum DStmt {
     Dml(Stmt),
     CreateTable { name: String, cols: Vec<ColSpec>, keys: Vec<(bool, Vec<String>)> },
-    CreateIndex { table: String, cols: Vec<String> },
+    /// `name` = None: the index is called ix<table><cols>
+    CreateIndex { table: String, cols: Vec<String>, name: Option<String> },
     AddColumn { table: String, col: ColSpec },
     DropColumn { table: String, col: String },
     AddKey { table: String, pk: bool, cols: Vec<String> },
     SetNotNull { table: String, col: String },
     DropNotNull { table: String, col: String },
-    DropTable { table: String },
+    DropTable { table: String, cascade: bool },
 }
 
 #[derive(Clone, Debug)]
@@ -41,6 +42,10 @@ pub enum DOp {
     Exec(String, DStmt),
     Auto(DStmt),
     Reopen,
+    /// VACUUM (generated only while no session is open)
+    Vacuum,
+    /// last op of a case: the final observation also reports the number of live index relations in the catalog
+    Audit,
 }
 
 fn parse_colspec(c: &str) -> Option<ColSpec> {
@@ -106,7 +111,14 @@ fn parse_dstmt(ws: &[&str]) -> Option<DStmt> {
             if pk {
                 return None;
             }
-            Some(DStmt::CreateIndex { table: t.to_string(), cols })
+            Some(DStmt::CreateIndex { table: t.to_string(), cols, name: None })
+        }
+        ["cin", n, t, g] if hist::ident(n) && hist::ident(t) => {
+            let (pk, cols) = parse_group(g)?;
+            if pk {
+                return None;
+            }
+            Some(DStmt::CreateIndex { table: t.to_string(), cols, name: Some(n.to_string()) })
         }
         ["ac", t, c] if hist::ident(t) => Some(DStmt::AddColumn { table: t.to_string(), col: parse_colspec(c)? }),
         ["dc", t, c] if hist::ident(t) && hist::ident(c) => Some(DStmt::DropColumn { table: t.to_string(), col: c.to_string() }),
@@ -116,7 +128,8 @@ fn parse_dstmt(ws: &[&str]) -> Option<DStmt> {
         }
         ["sn", t, c] if hist::ident(t) && hist::ident(c) => Some(DStmt::SetNotNull { table: t.to_string(), col: c.to_string() }),
         ["dn", t, c] if hist::ident(t) && hist::ident(c) => Some(DStmt::DropNotNull { table: t.to_string(), col: c.to_string() }),
-        ["dt", t] if hist::ident(t) => Some(DStmt::DropTable { table: t.to_string() }),
+        ["dt", t] if hist::ident(t) => Some(DStmt::DropTable { table: t.to_string(), cascade: false }),
+        ["dtc", t] if hist::ident(t) => Some(DStmt::DropTable { table: t.to_string(), cascade: true }),
         _ => hist::parse_stmt(ws).map(DStmt::Dml),
     }
 }
@@ -125,6 +138,8 @@ fn parse_dop(s: &str) -> Option<DOp> {
     let ws: Vec<&str> = s.split_whitespace().collect();
     match ws.as_slice() {
         ["reopen"] => Some(DOp::Reopen),
+        ["vacuum"] => Some(DOp::Vacuum),
+        ["audit"] => Some(DOp::Audit),
         ["db", rest @ ..] => Some(DOp::Auto(parse_dstmt(rest)?)),
         [s, "begin"] if hist::sess_name(s) => Some(DOp::Begin(s.to_string())),
         [s, "commit"] if hist::sess_name(s) => Some(DOp::Commit(s.to_string())),
@@ -135,6 +150,39 @@ fn parse_dop(s: &str) -> Option<DOp> {
     }
 }
 
+/// The model does not know index NAMES (an index is a key of its table), the code refuses a CREATE UNIQUE INDEX whose name
+/// is taken.  Well-formed cases therefore use an index name (explicit, or the implicit ix<table><cols> of `ci`) again only
+/// after the table it was created on has been dropped by an autocommit DROP TABLE or by a session that then commits
+/// (purely textual; the same rule in `Driver/Ddl.lean`).  Anything else is `bad-op` on both sides.
+fn index_names_well_formed(ops: &[DOp]) -> bool {
+    let mut live: Vec<(String, String)> = Vec::new(); // (index name, table)
+    let mut pending: BTreeMap<String, Vec<String>> = BTreeMap::new(); // session → tables it dropped
+    for op in ops {
+        match op {
+            DOp::Begin(s) | DOp::Rollback(s) | DOp::Drop(s) => {
+                pending.remove(s);
+            }
+            DOp::Commit(s) => {
+                for t in pending.remove(s).unwrap_or_default() {
+                    live.retain(|(_, tt)| *tt != t);
+                }
+            }
+            DOp::Reopen => pending.clear(),
+            DOp::Exec(_, DStmt::CreateIndex { table, cols, name }) | DOp::Auto(DStmt::CreateIndex { table, cols, name }) => {
+                let n = name.clone().unwrap_or_else(|| format!("ix{}{}", table, cols.join("")));
+                if live.iter().any(|(x, _)| *x == n) {
+                    return false;
+                }
+                live.push((n, table.clone()));
+            }
+            DOp::Exec(s, DStmt::DropTable { table, .. }) => pending.entry(s.clone()).or_default().push(table.clone()),
+            DOp::Auto(DStmt::DropTable { table, .. }) => live.retain(|(_, tt)| tt != table),
+            _ => {}
+        }
+    }
+    true
+}
+
 pub fn parse_case(line: &str) -> Option<Vec<DOp>> {
     let body = line.trim().strip_prefix("ddl |")?;
     let body = body.trim();
@@ -143,6 +191,14 @@ pub fn parse_case(line: &str) -> Option<Vec<DOp>> {
         for o in body.split(" ; ") {
             out.push(parse_dop(o)?);
         }
+    }
+    if !index_names_well_formed(&out) {
+        return None;
+    }
+    // `audit` only as the last op
+    let n = out.len();
+    if out.iter().enumerate().any(|(i, o)| matches!(o, DOp::Audit) && i + 1 != n) {
+        return None;
     }
     Some(out)
 }
@@ -181,8 +237,9 @@ pub fn sql_of(st: &DStmt) -> String {
             }
             format!("CREATE TABLE {} ({})", name, parts.join(", "))
         }
-        DStmt::CreateIndex { table, cols } => {
-            format!("CREATE UNIQUE INDEX ix{}{} ON {} ({})", table, cols.join(""), table, cols.join(", "))
+        DStmt::CreateIndex { table, cols, name } => {
+            let name = name.clone().unwrap_or_else(|| format!("ix{}{}", table, cols.join("")));
+            format!("CREATE UNIQUE INDEX {} ON {} ({})", name, table, cols.join(", "))
         }
         DStmt::AddColumn { table, col } => format!("ALTER TABLE {} ADD COLUMN {}", table, sql_col(col)),
         DStmt::DropColumn { table, col } => format!("ALTER TABLE {} DROP COLUMN {}", table, col),
@@ -194,7 +251,7 @@ pub fn sql_of(st: &DStmt) -> String {
         ),
         DStmt::SetNotNull { table, col } => format!("ALTER TABLE {} ALTER COLUMN {} SET NOT NULL", table, col),
         DStmt::DropNotNull { table, col } => format!("ALTER TABLE {} ALTER COLUMN {} DROP NOT NULL", table, col),
-        DStmt::DropTable { table } => format!("DROP TABLE {}", table),
+        DStmt::DropTable { table, cascade } => format!("DROP TABLE {}{}", table, if *cascade { " CASCADE" } else { "" }),
     }
 }
 
@@ -218,7 +275,7 @@ fn tables_of(ops: &[DOp]) -> Vec<String> {
             | DStmt::AddKey { table, .. }
             | DStmt::SetNotNull { table, .. }
             | DStmt::DropNotNull { table, .. }
-            | DStmt::DropTable { table } => add(table),
+            | DStmt::DropTable { table, .. } => add(table),
             DStmt::Dml(s) => match s {
                 Stmt::Sel { table, .. } | Stmt::Ins { table, .. } | Stmt::Upd { table, .. } | Stmt::Del { table, .. } => add(table),
             },
@@ -308,6 +365,14 @@ fn run_in(dir: &std::path::Path, ops: &[DOp]) -> String {
                 let r = db.execute(&sql_of(st)).map_err(|e| e.to_string());
                 hist::show_result(r, is_read(st), &mut diag)
             }
+            DOp::Vacuum => match db.vacuum() {
+                Ok(_) => "ok".to_string(),
+                Err(e) => {
+                    diag.push(e.to_string().chars().take(100).collect());
+                    hist::err_class(&e.to_string()).to_string()
+                }
+            },
+            DOp::Audit => continue,
             DOp::Reopen => {
                 sessions.clear();
                 drop(db);
@@ -327,6 +392,20 @@ fn run_in(dir: &std::path::Path, ops: &[DOp]) -> String {
     for t in tables_of(ops) {
         let r = db.execute(&format!("SELECT * FROM {}", t)).map_err(|e| e.to_string());
         fin.push(format!("{}={}", t, hist::show_result(r, true, &mut diag)));
+    }
+    if matches!(ops.last(), Some(DOp::Audit)) {
+        // live index relations: physical rows of the meta table that stand for an index, whose creator has not rolled
+        // back and that carry no delete mark of a transaction that has not rolled back (no transaction is open here)
+        match axmosdb::verif::pager::database_roots(&db) {
+            Ok(roots) => {
+                let n = roots
+                    .iter()
+                    .filter(|r| r.is_index && r.name != "meta_index" && !r.xmin_aborted && (r.xmax.is_none() || r.xmax_aborted))
+                    .count();
+                fin.push(format!("ix={}", n));
+            }
+            Err(e) => fin.push(format!("ix=error:{}", e)),
+        }
     }
     drop(db);
     let mut line = format!("{} | {}", outs.join(" "), fin.join(" "));
@@ -838,6 +917,132 @@ fn gen_drop_after_rolled_back_drop(rng: &mut Rng, out: &mut Vec<Case>) {
     out.push(Case { line: format!("ddl | {}", ops.join(" ; ")), tags });
 }
 
+/// Tables with named and unnamed unique indexes and declared keys, dropped by plain DROP TABLE or DROP TABLE … CASCADE
+/// (autocommit, in a committed session, or first in a session that rolls back), VACUUM and reopen in between, then the
+/// table name AND the index names are used again (same table, or the index name on another table), rows inserted
+/// against the new indexes; the case ends with the audit of the catalog: as many live index relations as the live
+/// tables have keys — an index must go with its table, whatever the CASCADE flag says.  Clean region.
+fn gen_drop_with_indexes(rng: &mut Rng, out: &mut Vec<Case>) {
+    let mut ops: Vec<String> = Vec::new();
+    let decl_unique = rng.chance(1, 2);
+    ops.push(format!("db ct t(k:big{},v:int,w:int)", if decl_unique { "*" } else { "" }));
+    // one or two indexes created afterwards: a named one, an unnamed one (ix<t><cols>), or a constraint
+    match rng.below(3) {
+        0 => ops.push("db cin ixa t v".into()),
+        1 => ops.push("db ci t v".into()),
+        _ => ops.push("db ak t v".into()),
+    }
+    if rng.chance(1, 2) {
+        ops.push("db cin ixb t v+w".into());
+    }
+    ops.push("db ins t 1 10 100 ; db ins t 2 20 200".into());
+    if rng.chance(1, 2) {
+        ops.push("db ct u(a:int*,b:int)".into());
+        ops.push("db ins u 1 1".into());
+    }
+    // a DROP that does not happen
+    if rng.chance(1, 3) {
+        let d = if rng.chance(1, 2) { "dt" } else { "dtc" };
+        ops.push(format!("s1 begin ; s1 {} t ; s1 rollback ; db ins t 3 30 300 ; db ins t 4 30 400 ; db sel t", d));
+    }
+    // the DROP
+    let d = if rng.chance(1, 2) { "dt" } else { "dtc" };
+    match rng.below(3) {
+        0 => ops.push(format!("s1 begin ; s1 {} t ; s1 commit", d)),
+        _ => ops.push(format!("db {} t", d)),
+    }
+    ops.push("db sel t".into());
+    match rng.below(4) {
+        0 => ops.push("vacuum".into()),
+        1 => ops.push("reopen".into()),
+        2 => ops.push("vacuum ; reopen".into()),
+        _ => {}
+    }
+    // the names come back
+    if rng.chance(2, 3) {
+        ops.push(format!("db ct t(k:big{},v:int,w:int)", if rng.chance(1, 2) { "*" } else { "" }));
+        match rng.below(3) {
+            0 => ops.push("db ci t v".into()),
+            1 => ops.push("db ak t v".into()),
+            _ => ops.push("db cin ixa t v".into()),
+        }
+        if rng.chance(1, 2) {
+            // `ixb` belonged to the dropped table, or to nobody
+            ops.push("db cin ixb t k+w".into());
+        }
+        ops.push("db ins t 5 50 500 ; db ins t 6 50 600 ; db ins t 7 70 700 ; db sel t".into());
+    } else {
+        // the index names on another table
+        ops.push("db ct x(a:int,b:int)".into());
+        ops.push("db cin ixa x a".into());
+        if rng.chance(1, 2) {
+            ops.push("db cin ixb x a+b".into());
+        }
+        ops.push("db ins x 1 1 ; db ins x 1 2 ; db ins x 2 1 ; db sel x".into());
+    }
+    if rng.chance(1, 2) {
+        ops.push("reopen".into());
+    }
+    if rng.chance(1, 3) {
+        ops.push("vacuum".into());
+    }
+    ops.push("audit".into());
+    let tags: Vec<String> = vec!["c15".into(), "drop_with_indexes".into(), "nt".into(), "clean".into()];
+    out.push(Case { line: format!("ddl | {}", ops.join(" ; ")), tags });
+}
+
+/// A transaction REFUSED at commit stays rolled back across a reopen, all three kinds of write-set conflict: the same row
+/// (both delete it; the loser is the first deleter), the same unique key (the loser is the second inserter), the same
+/// table NAME (the loser created the name and dropped it again, the winner created it meanwhile — the name stays in the
+/// loser's write set, finding commitChecksInsertedKeysOnly).  The loser also inserts into another table and creates a
+/// table of its own; after the refused COMMIT more work is committed, then reopen and reads.
+fn gen_refused_commit_reopen(rng: &mut Rng, out: &mut Vec<Case>) {
+    let mut ops: Vec<String> = vec!["db ct u(k:big*,v:int)".into(), "db ins u 1 10 ; db ins u 2 20".into()];
+    let kind = rng.below(3);
+    let (lo, wi) = if rng.chance(1, 2) { ("s1", "s2") } else { ("s2", "s1") };
+    ops.push(format!("{} begin ; {} begin", lo, wi));
+    let mut tags: Vec<String> = vec!["c15".into(), "refused_commit_reopen".into(), "reopen".into(), "nt".into()];
+    match kind {
+        0 => {
+            ops.push(format!("{} del u where v eq 10 ; {} del u where v eq 10", lo, wi));
+            tags.push("refused_same_row".into());
+            tags.push("clean".into());
+        }
+        1 => {
+            ops.push(format!("{} ins u 5 50 ; {} ins u 5 51", wi, lo));
+            tags.push("refused_same_key".into());
+            tags.push("clean".into());
+        }
+        _ => {
+            ops.push(format!("{} ct t(k:big) ; {} dt t ; {} ct t(k:int,v:int)", lo, lo, wi));
+            tags.push("refused_same_name".into());
+            tags.push("kf:refused_same_name".into());
+        }
+    }
+    // the loser's other work
+    ops.push(format!("{} ins u 7 70", lo));
+    if rng.chance(1, 2) {
+        ops.push(format!("{} ct w(a:int) ; {} ins w 1", lo, lo));
+    }
+    ops.push(format!("{} commit ; {} commit", wi, lo));
+    match rng.below(3) {
+        0 => ops.push("db ins u 8 80".into()),
+        1 => ops.push("s3 begin ; s3 ins u 8 80 ; s3 commit".into()),
+        _ => {}
+    }
+    if rng.chance(1, 3) {
+        ops.push("db sel u".into());
+    }
+    ops.push("reopen".into());
+    ops.push("db sel u ; db sel w ; db sel t".into());
+    // what only the loser had inserted is free
+    ops.push("db ins u 7 71 ; db ct w(a:int,b:int) ; db ins w 1 2 ; db sel w".into());
+    if rng.chance(1, 2) {
+        ops.push("reopen ; db sel u ; db sel w".into());
+    }
+    out.push(Case { line: format!("ddl | {}", ops.join(" ; ")), tags });
+}
+
 /// CREATE UNIQUE INDEX / ADD CONSTRAINT UNIQUE over rows that collide: refused, and the table must stay usable (rows
 /// inserted and read afterwards, duplicates still accepted); then the duplicates are deleted, the same DDL succeeds
 /// and a duplicate is refused; in autocommit or inside a session that goes on and commits, sometimes with a reopen.
@@ -850,7 +1055,9 @@ fn gen_index_over_duplicates(rng: &mut Rng, out: &mut Vec<Case>) {
     if rng.chance(1, 2) {
         ops.push(format!("db ins {} null 40 ; db ins {} null 50", t, t));
     }
-    let how = if rng.chance(1, 2) { "ci" } else { "ak" };
+    // (index names: a well-formed case does not use a name twice on a live table, see `index_names_well_formed`;
+    // the attempt that fails and the one that succeeds therefore carry different names)
+    let how = if rng.chance(1, 2) { "cin ixf" } else { "ak" };
     match rng.below(3) {
         0 => ops.push(format!("db {} {} k", how, t)),
         1 => ops.push(format!("s1 begin ; s1 {} {} k ; s1 ins {} 3 60 ; s1 commit", how, t, t)),
@@ -865,6 +1072,7 @@ fn gen_index_over_duplicates(rng: &mut Rng, out: &mut Vec<Case>) {
     // remove the duplicates (rows are addressed through v), try again
     ops.push(format!("db del {} where v eq 30 ; db del {} where v eq 80", t, t));
     let how2 = if rng.chance(1, 2) { "ci" } else { "ak" };
+    let _ = how;
     ops.push(format!("db {} {} k ; db sel {}", how2, t, t));
     ops.push(format!("db ins {} 1 11 ; db ins {} 6 12 ; db ins {} null 13 ; db sel {}", t, t, t, t));
     if rng.chance(1, 2) {
@@ -885,6 +1093,12 @@ impl Engine for DdlEngine {
         }
         for _ in 0..(if tier == Tier::Quick { 40 } else { 400 }) {
             gen_index_over_duplicates(rng, &mut out);
+        }
+        for _ in 0..(if tier == Tier::Quick { 60 } else { 600 }) {
+            gen_drop_with_indexes(rng, &mut out);
+        }
+        for _ in 0..(if tier == Tier::Quick { 30 } else { 300 }) {
+            gen_refused_commit_reopen(rng, &mut out);
         }
         let want = if tier == Tier::Quick { 600 } else { 6000 };
         let want = want + out.len();
